@@ -1433,6 +1433,11 @@ def _model_to_sbml(
             flux_obj.setReaction(rid)
             flux_obj.setCoefficient(cobra_reaction.objective_coefficient)
 
+    # an objective without flux objectives is not valid
+    if objective.getNumFluxObjectives() == 0:
+        model_fbc.removeObjective("obj")
+        model_fbc.unsetActiveObjectiveId()
+
     # write groups
     if len(cobra_model.groups) > 0:
         doc.enablePackage(
